@@ -85,6 +85,10 @@ impl<'ast, 'a> Visit<'ast> for Marker<'a> {
         if R9_METHODS.contains(&m.as_str()) && n.args.len() == 1 {
             let is_closure = matches!(n.args.first().unwrap(), syn::Expr::Closure(_));
             self.calls.push((m, br(n.method.span()), is_closure));
+        } else if m == "map_or_else" && n.args.len() == 2 {
+            // R9 for `Option::map_or_else(default_closure, some_closure)` — only when both are closure literals
+            let is_closure = n.args.iter().all(|a| matches!(a, syn::Expr::Closure(_)));
+            self.calls.push((m, br(n.method.span()), is_closure));
         }
         syn::visit::visit_expr_method_call(self, n);
     }
@@ -99,6 +103,7 @@ fn default_kind(m: &str) -> &'static str {
         "and_then" => "opt",
         "or_else" => "res",
         "map_ok" => "pollres",
+        "map_or_else" => "opt",
         _ => "res",
     }
 }
@@ -229,6 +234,21 @@ impl<'a> Pass<'a> {
     }
     fn r9(&mut self, n: &syn::ExprMethodCall, meth: &str, kind: &str) {
         let recv = self.s(br(n.receiver.span())).to_string();
+        if meth == "map_or_else" {
+            // Option::map_or_else(d, f) == match self { Some(t) => f(t), None => d() }   (std definition)
+            let mut it = n.args.iter();
+            match (it.next(), it.next(), kind) {
+                (Some(syn::Expr::Closure(dc)), Some(syn::Expr::Closure(fc)), "opt") => {
+                    let (_, dbody) = self.closure_parts(dc, meth);
+                    let (fpats, fbody) = self.closure_parts(fc, meth);
+                    let p = fpats.first().cloned().unwrap_or_else(|| "_".to_string());
+                    let t = format!("(match {} {{ Some({}) => {}, None => {} }})", recv, p, fbody, dbody);
+                    self.edits.push(Edit { range: br(n.span()), text: t, rule: "R9" });
+                    return;
+                }
+                _ => die("unsupported", &format!("{}: R9 map_or_else needs two closure literals and kind opt", self.d.item)),
+            }
+        }
         let arg = n.args.first().unwrap();
         // (pattern, body) — a non-closure argument F is applied as F(__vp_e)
         let (pat, body) = match arg {
@@ -349,6 +369,16 @@ impl<'ast, 'a> Visit<'ast> for Pass<'a> {
             } else if let Some((meth, kind)) = rest.split_once("__") {
                 self.r9(n, meth, kind);
             }
+        } else if m == "retain" && n.args.len() == 1 && is_on(self.d, "R11") {
+            // `V.retain(|s| s.is_some())` => `shim_retain_some(&mut V)` (DESIGN §3.2 R11): Vec::retain with a closure
+            // has no spec here; the shim's assumed contract is "order-preserving filter of the Some entries".
+            if let Some(syn::Expr::Closure(c)) = n.args.first() {
+                let (pats, cbody) = self.closure_parts(c, "retain");
+                if pats.len() == 1 && norm(&cbody) == format!("{}.is_some()", norm(&pats[0])) {
+                    let v = self.s(br(n.receiver.span()));
+                    self.edits.push(Edit { range: br(n.span()), text: format!("shim_retain_some(&mut {})", v), rule: "R11" });
+                }
+            }
         } else if m == "to_string" && n.args.is_empty() && !is_off(self.d, "R3") {
             self.edits.push(Edit { range: br(n.span()), text: "shim_msg()".into(), rule: "R3" });
         }
@@ -392,6 +422,31 @@ impl<'ast, 'a> Visit<'ast> for Pass<'a> {
         self.loop_depth -= 1;
     }
     fn visit_expr_for_loop(&mut self, n: &'ast syn::ExprForLoop) {
+        if is_on(self.d, "R10") {
+            // `for P in V.iter_mut().filter(|s| C) { B }`  =>  index loop over V (DESIGN §3.2 R10).
+            // The increment precedes the body so that `continue` in B keeps its meaning; B is kept verbatim.
+            // Sound because B cannot change V's length while `iter_mut()` borrows it (borrow checker).
+            if let syn::Expr::MethodCall(f) = &*n.expr {
+                if f.method == "filter" && f.args.len() == 1 {
+                    if let (syn::Expr::MethodCall(im), Some(syn::Expr::Closure(c))) = (&*f.receiver, f.args.first()) {
+                        if im.method == "iter_mut" && im.args.is_empty() && c.inputs.len() == 1 && n.label.is_none() {
+                            let v = self.s(br(im.receiver.span()));
+                            let (pats, cbody) = self.closure_parts(c, "filter");
+                            let pat = self.s(br(n.pat.span()));
+                            let body = self.s(br(n.body.span()));
+                            self.edits.push(Edit {
+                                range: br(n.span()),
+                                text: format!(
+                                    "{{ let mut __vp_i: usize = 0; while __vp_i < {v}.len() {{ let __vp_j = __vp_i; __vp_i += 1; if !({{ let {p} = &{v}[__vp_j]; {c} }}) {{ continue; }} let {pat} = &mut {v}[__vp_j]; {body} }} }}",
+                                    v = v, p = pats[0], c = cbody, pat = pat, body = body
+                                ),
+                                rule: "R10",
+                            });
+                        }
+                    }
+                }
+            }
+        }
         if is_on(self.d, "R18for") {
             // the language definition of `for`, with the iterator bound to a local
             let is_range = matches!(&*n.expr, syn::Expr::Range(_));
@@ -623,6 +678,12 @@ pub fn run(text0: &str, d: &Dir, rules: &mut BTreeMap<String, usize>) -> String 
         let mut p = Pass { src: &text, d, edits: vec![], loop_depth: 0, tail_loop, in_tail_loop_depth: None, wild: 0 };
         p.visit_impl_item_fn(&f);
         if p.edits.is_empty() {
+            // an opt-in structural rule that found no site is a lost anchor (undecided), never a silent pass
+            for r in ["R10", "R11"] {
+                if is_on(d, r) && rules.get(r).copied().unwrap_or(0) == 0 {
+                    die("anchor-lost", &format!("{}: //@on {} but no matching site", d.item, r));
+                }
+            }
             return text;
         }
         let edits = std::mem::take(&mut p.edits);
